@@ -545,7 +545,8 @@ def natural_scale(calc, d):
             self.transformInv = self.f.transformInv
 
         def trace_ln(self, ik, a, b):
-            return np.abs(self.f.trace_ln(ik, a, b))
+            # element level: a sum over the partners of a degenerate group may itself vanish by symmetry (PT)
+            return sum(np.abs(self.f.trace_ln(ik, np.array([m]), np.array([n]))) for m in a for n in b)
     fo, fe = calc.factor_omega, calc.factor_Efermi
     c2.Formula = AbsFormula
     c2.factor_omega = lambda E1, E2: np.abs(fo(E1, E2))
@@ -598,6 +599,7 @@ def run_dyncalc(case, system, meta, groups, nb, k):
                                    for kx in K_ALPHABET.values())
             scale = max(1e-300, _CACHE[skey])
             err = float(np.abs(got - exp).max()) / scale
+            disc = float(np.abs(res[0].data).max()) > 1e-4 * scale
             if err <= TOL:
                 status = "gauge" if image else "ok"
                 break
@@ -611,7 +613,7 @@ def run_dyncalc(case, system, meta, groups, nb, k):
             skipped.append(f"{label}:{status}")
             continue
         ncmp += 1
-        nd += 1
+        nd += int(disc)
         if status == "gauge":
             gauge.append(label)
         if status == "fail":
